@@ -80,6 +80,10 @@ def _cases(shard):
                   op('has_key', K), op('len'), op('list'), op('keys'), op('isdisjoint_self')]
         rw += [op('range', st.sampled_from(['keys'] + (['values', 'items'] if is_map else [])), B, B,
                   st.booleans(), st.booleans()),
+               op('view', st.sampled_from(['keys'] + (['values', 'items'] if is_map else [])), B, B,
+                  st.booleans(), st.booleans(), st.lists(st.integers(-12, 12), min_size=1, max_size=5)),
+               op('view', st.sampled_from(['keys'] + (['values', 'items'] if is_map else [])), st.none(), st.none(),
+                  st.booleans(), st.booleans(), st.lists(st.sampled_from([-1, -2, -3, -5, 0, 4]), min_size=2, max_size=4)),
                op('minKey', B), op('maxKey', B), op('clear')]
         if kind in F.TREE_KINDS:
             rw += [op('leaf', st.integers(0, 6), st.sampled_from(['keys', 'minKey_bad', 'maxKey_bad', 'len', 'has_key', 'maxKey']))]
@@ -161,7 +165,7 @@ def _special(lv, op, ctx, i):
     t, m, fam = lv.t, lv.model, lv.fam
     name = op[0]
     sk = lv.sorted_keys()
-    if name == 'range':
+    if name in ('range', 'view'):
         _, meth, mn, mx, exmin, exmax = op[:6]
         kmn = lv._kw(F.dk(fam, mn)) if mn is not None else None
         kmx = lv._kw(F.dk(fam, mx)) if mx is not None else None
@@ -180,6 +184,28 @@ def _special(lv, op, ctx, i):
         sel = [k for k in sk if ok(k)]
         want = sel if meth == 'keys' else ([m[k] for k in sel] if meth == 'values' else [(k, m[k]) for k in sel])
         call = lambda: list(getattr(t, meth)(kmn, kmx, exmin, exmax))
+        if name == 'view':
+            # the lazy sequence is created and indexed (backwards and forwards) WITHOUT being iterated; no node
+            # may stay pinned after any of these calls, while the sequence is still alive
+            idxs = op[6]
+            wantv = [len(want)] + [(want[j] if -len(want) <= j < len(want) else 'IndexError') for j in idxs]
+            lv.view_sticky = None
+
+            def call():
+                v = getattr(t, meth)(kmn, kmx, exmin, exmax)
+                out = []
+                steps = [('len', None)] + [('idx', j) for j in idxs]
+                if lv.conn.sticky():
+                    lv.view_sticky = 'creating the sequence'
+                for what, j in steps:
+                    try:
+                        out.append(len(v) if what == 'len' else v[j])
+                    except IndexError:
+                        out.append('IndexError')
+                    if lv.view_sticky is None and lv.conn.sticky():
+                        lv.view_sticky = 'len()' if what == 'len' else 'indexing it with %d' % j
+                return out
+            return call, ('ok', wantv), 'eq'
         return call, ('ok', want), 'eq'
     if name in ('minKey', 'maxKey'):
         b = op[1]
@@ -267,6 +293,10 @@ def run_case(case, ctx):
                     P.arm(False)
             else:
                 got, want, mode = lv.step(op)
+            if name == 'view' and getattr(lv, 'view_sticky', None):
+                classes.append('view:sticky')
+                ctx.mismatch('%s: node(s) left pinned against eviction (sticky) after %s, before the sequence was '
+                             'iterated' % (desc, lv.view_sticky), dict(sig, what='sticky', view=True))
             fired = P.Hook.fired
             sig['insweep'] = fired
             if fired:
